@@ -15,11 +15,13 @@ use walrus_rust::{FsyncSchedule, ReadConsistency, Walrus};
 /// payload byte i of payload number pid: never zero, cheap, position dependent
 #[inline]
 pub fn pbyte(pid: u64, i: u64) -> u8 {
-    (1 + ((pid.wrapping_mul(7))
-        .wrapping_add(i.wrapping_mul(13))
-        .wrapping_add((i >> 8).wrapping_mul(3))
-        .wrapping_add((pid >> 8).wrapping_mul(5))
-        % 255)) as u8
+    // a well-mixed function of (pid, i), never zero: suffixes of different payloads must not
+    // coincide, because returned (possibly front-trimmed) bytes are mapped back to (pid, skip)
+    let mut x = pid.wrapping_mul(0x9E37_79B9_7F4A_7C15).wrapping_add(i.wrapping_mul(0xBF58_476D_1CE4_E5B9));
+    x ^= x >> 29;
+    x = x.wrapping_mul(0x94D0_49BB_1331_11EB);
+    x ^= x >> 32;
+    (1 + x % 255) as u8
 }
 
 pub fn payload(pid: u64, len: u64) -> Vec<u8> {
